@@ -69,37 +69,6 @@ func vModulusOf(r *Ring) *big.Int {
 
 func vInRange(x, lo, hi *big.Int) bool { return x.Cmp(lo) >= 0 && x.Cmp(hi) < 0 }
 
-// stand-ins for the transforms (engine only): identity on reduced values, output anywhere in the documented range.
-func vStubNTT(s *SubRing, p1, p2 []uint64) {
-	for j := range p1 {
-		p2[j] = p1[j] % s.Modulus
-	}
-}
-
-func vStubNTTLazy(s *SubRing, p1, p2 []uint64) {
-	for j := range p1 {
-		p2[j] = p1[j] % s.Modulus
-	}
-	k := vU64("nttlazy.k")
-	p2[0] += (k % 6) * s.Modulus // [0, 6q-2] documented
-}
-
-// INTTLazy: documented range [0, 2q-1].  The implementation's last step is MRedLazy(v, N^-1) (N < 16) or MRed
-// (N >= 16) of a value v < 2q, so an unreduced output r+q only occurs with r <= hi64(v·N^-1) <= (2q·q)>>64 (< q/4
-// for q < 2^61); VerifH_C02_INTTLazyRange discharges that bound on the real MRedLazy.  DivRoundByLastModulusNTT is only
-// correct under this tighter, actual range, so the stand-in uses it.
-func vStubINTTLazy(s *SubRing, p1, p2 []uint64) {
-	for j := range p1 {
-		p2[j] = p1[j] % s.Modulus
-	}
-	k := vU64("inttlazy.k") & 1
-	hi, _ := bits.Mul64(2*s.Modulus, s.Modulus)
-	if p2[0] > hi {
-		k = 0
-	}
-	p2[0] += k * s.Modulus
-}
-
 func VerifH_C02_INTTLazyRange() {
 	vConfig("backend", "int")
 	seen := map[uint64]bool{}
@@ -118,22 +87,6 @@ func VerifH_C02_INTTLazyRange() {
 			vAssert(out < q || out-q <= hi, "INTTLazy-final-step-range")
 		}
 	}
-}
-
-func vStubTransforms() {
-	const pfx = "(*github.com/tuneinsight/lattigo/v6/ring.SubRing)."
-	vStub(pfx+"NTT", "call:vStubNTT")
-	vStub(pfx+"INTT", "call:vStubNTT")
-	vStub(pfx+"NTTLazy", "call:vStubNTTLazy")
-	vStub(pfx+"INTTLazy", "call:vStubINTTLazy")
-}
-
-func vUnstubTransforms() {
-	const pfx = "(*github.com/tuneinsight/lattigo/v6/ring.SubRing)."
-	vUnstub(pfx + "NTT")
-	vUnstub(pfx + "INTT")
-	vUnstub(pfx + "NTTLazy")
-	vUnstub(pfx + "INTTLazy")
 }
 
 // vCheckQuot asserts that limb i<=lvl of p (coefficient 0) is y mod q_i, fully reduced.  d is the product of the
